@@ -715,9 +715,9 @@ Section Refine.
       rewrite run_batches_bstep in *. cbn [fst snd] in *.
       rewrite sum_del_outs.
       + rewrite <- Esh. rewrite <- !size_union_list by (by apply Homed_Disj).
-        fold (abs sh) (abs sh'). rewrite H2. by rewrite del_run_count.
+        change (⋃ sh) with (abs sh). change (⋃ sh') with (abs sh'). rewrite H2. by rewrite (del_run_count (abs sh) ks).
       + intros i s Hs. unfold bstep. destruct (batch_of _ i ks) as [|p b]; [cbn; lia|].
-        rewrite Hrun. cbn. rewrite del_run_count. lia.
+        rewrite Hrun. cbn [fst snd sum_ints foldr int_of]. rewrite del_run_count. lia.
     - (* at most one key: the default arm *)
       assert (primary_key (CDel ks : cmd P) = hd_error ks) as Hp by reflexivity.
       unfold exec_default. rewrite Hp. destruct ks as [|k [|k2 ks]]; [| |cbn in Elen; done].
@@ -733,3 +733,396 @@ Section Refine.
         * intros k' Hk'. apply lookup_delete_ne. congruence.
         * intros k' Hk'. apply lookup_delete_ne. congruence.
   Qed.
+
+  (* ---------------------------------------------------------------- MGET / pipelined GET *)
+  Definition upd_keep (k : list N) (o : option V) (l : list (list N)) : option V := o.
+
+  Lemma batch_keys_home sh (i : nat) (ks : list (list N)) k :
+    k ∈ (batch_of (fun a => home_s (List.length sh) (id a)) i ks).*2 -> home_s (List.length sh) k = i.
+  Proof. rewrite batch_of_snd. rewrite elem_of_list_filter. by intros [? _]. Qed.
+
+  Lemma step_mget sh (ks : list (list N)) : Homed sh -> (0 < List.length sh)%nat ->
+    StepOK sh (Generic (CMGet ks)) (exec_generic X home_s sh (CMGet ks)).
+  Proof.
+    intros HH Hn. unfold StepOK. cbn [exec_generic ref1 ref_generic].
+    set (run := fun (s : st) (b : list (list N)) => let '(s', r) := exec X s (CBatchGet b) in (s', arr_items r)).
+    assert (forall s b, run s b = (s, (fun k => bget X (s !! k)) <$> b)) as Hrun.
+    { intros s b. unfold run. by rewrite (batchget_spec X HX). }
+    change (home_s (List.length sh)) with (fun a : list N => home_s (List.length sh) (id a)).
+    destruct (run_batches_state id run upd_keep) with (items := ks) (sh := sh) (T := abs sh)
+      as [H1 [H2 H3]]; auto.
+    { intros s b k. by rewrite Hrun. }
+    pose proof (run_batches_write_back id run (fun k => bget X (abs sh !! k)) (RBulk None) ks sh Hn) as Hwb.
+    destruct (run_batches _ run ks sh) as [sh' outs] eqn:E. cbn [fst snd] in *.
+    split; [|done]. rewrite Hwb; [done|].
+    intros i s Hs. rewrite Hrun. cbn [snd]. apply Forall_fmap_ext_1, Forall_forall. intros k Hk.
+    f_equal. symmetry. apply lookup_abs; [done|]. by rewrite (batch_keys_home sh i ks k Hk).
+  Qed.
+
+  Lemma step_pipeget sh (ks : list (list N)) : Homed sh -> (0 < List.length sh)%nat ->
+    StepOK sh (PipeGet ks) (execN X home_s home_b sh (PipeGet ks)).
+  Proof.
+    intros HH Hn. unfold StepOK. cbn [execN ref1].
+    set (run := fun (s : st) (b : list (list N)) => (s, get_direct X s <$> b)).
+    rewrite (run_batches_ext_rt (home_b (List.length sh)) (fun a => home_s (List.length sh) (id a))) by (intros; apply home_eq).
+    destruct (run_batches_state id run upd_keep) with (items := ks) (sh := sh) (T := abs sh)
+      as [H1 [H2 H3]]; auto.
+    pose proof (run_batches_write_back id run (fun k => fget X (abs sh !! k)) (RBulk None) ks sh Hn) as Hwb.
+    destruct (run_batches _ run ks sh) as [sh' outs] eqn:E. cbn [fst snd] in *.
+    split; [|done]. rewrite Hwb; [done|].
+    intros i s Hs. unfold run. cbn [snd]. apply Forall_fmap_ext_1, Forall_forall. intros k Hk.
+    rewrite (get_direct_spec X HX). f_equal. symmetry. apply lookup_abs; [done|].
+    by rewrite (batch_keys_home sh i ks k Hk).
+  Qed.
+
+  (* ---------------------------------------------------------------- MSET / pipelined SET *)
+  Definition fold_set (f : option V -> list N -> V) (s : st) (kvs : list (list N * list N)) : st :=
+    foldl (fun s kv => <[kv.1 := f (s !! kv.1) kv.2]> s) s kvs.
+  Definition upd_set (f : option V -> list N -> V) (k : list N) (o : option V) (l : list (list N * list N)) : option V :=
+    foldl (fun o kv => Some (f o kv.2)) o l.
+  Lemma fold_set_lookup f s kvs k :
+    fold_set f s kvs !! k = upd_set f k (s !! k) (filter (fun kv : list N * list N => kv.1 = k) kvs).
+  Proof.
+    revert s; induction kvs as [|[a v] kvs IH]; intros s; [done|].
+    unfold fold_set in *. cbn [foldl]. rewrite IH, filter_cons. cbn [fst snd].
+    destruct (decide (a = k)) as [->|Hne].
+    - by rewrite lookup_insert.
+    - by rewrite lookup_insert_ne.
+  Qed.
+
+  Lemma step_mset sh (kvs : list (list N * list N)) : Homed sh -> (0 < List.length sh)%nat ->
+    StepOK sh (Generic (CMSet kvs)) (exec_generic X home_s sh (CMSet kvs)).
+  Proof.
+    intros HH Hn. unfold StepOK. cbn [exec_generic ref1 ref_generic].
+    set (run := fun (s : st) (b : list (list N * list N)) => ((exec X s (CBatchSet b)).1, @List.nil reply)).
+    destruct (run_batches_state fst run (upd_set (bset X))) with (items := kvs) (sh := sh) (T := batch_set X (abs sh) kvs)
+      as [H1 [H2 H3]]; auto.
+    { intros s b k. unfold run. cbn [fst]. rewrite (batchset_spec X HX). apply (fold_set_lookup (bset X)). }
+    { intros k. apply (fold_set_lookup (bset X)). }
+    destruct (run_batches _ run kvs sh) as [sh' outs] eqn:E. cbn [fst snd] in *. done.
+  Qed.
+
+  Lemma run_direct_set_eq s (b : list (list N * list N)) :
+    run_direct_set X s b = (fold_set (fun _ v => fset X v) s b, (fun _ => ROK) <$> b).
+  Proof.
+    unfold run_direct_set.
+    assert (forall acc, foldl (fun acc kv => let '(s', r) := set_direct X acc.1 kv.1 kv.2 in (s', acc.2 ++ [r])) acc b
+            = (fold_set (fun _ v => fset X v) acc.1 b, acc.2 ++ ((fun _ => ROK) <$> b))) as H.
+    { induction b as [|[k v] b IH]; intros [s0 rs0]; cbn [foldl fst snd].
+      - by rewrite app_nil_r.
+      - rewrite (set_direct_spec X HX). rewrite IH. cbn [fst snd]. f_equal. by rewrite <- app_assoc. }
+    by rewrite H.
+  Qed.
+
+  Lemma step_pipeset sh (kvs : list (list N * list N)) : Homed sh -> (0 < List.length sh)%nat ->
+    StepOK sh (PipeSet kvs) (execN X home_s home_b sh (PipeSet kvs)).
+  Proof.
+    intros HH Hn. unfold StepOK. cbn [execN ref1].
+    rewrite (run_batches_ext_rt (fun kv => home_b (List.length sh) kv.1) (fun a => home_s (List.length sh) (fst a))) by (intros; apply home_eq).
+    destruct (run_batches_state fst (run_direct_set X) (upd_set (fun _ v => fset X v))) with (items := kvs) (sh := sh)
+        (T := fold_set (fun _ v => fset X v) (abs sh) kvs) as [H1 [H2 H3]]; auto.
+    { intros s b k. rewrite run_direct_set_eq. apply fold_set_lookup. }
+    { intros k. apply fold_set_lookup. }
+    pose proof (run_batches_write_back fst (run_direct_set X) (fun _ => ROK) ROK kvs sh Hn) as Hwb.
+    destruct (run_batches _ (run_direct_set X) kvs sh) as [sh' outs] eqn:E. cbn [fst snd] in *.
+    split; [|done]. rewrite Hwb; [done|].
+    intros i s Hs. by rewrite run_direct_set_eq.
+  Qed.
+
+  (* ---------------------------------------------------------------- every single-home request *)
+  Theorem refines_ref1 sh (rq : req P) :
+    Homed sh -> (0 < List.length sh)%nat -> SingleHome X home_s (List.length sh) rq ->
+    StepOK sh rq (execN X home_s home_b sh rq).
+  Proof.
+    intros HH Hn HS. destruct rq as [c|b k|b k v|ks|kvs].
+    - cbn [execN]. destruct HS as [Hwf [Hcs Hr]].
+      assert (default_routed c -> StepOK sh (Generic c) (exec_default X home_s sh c)) as Hdef.
+      { intros Hd. destruct (step_default sh c HH Hn Hwf Hd Hcs (Hr Hd)) as [H1 [H2 [H3 H4]]].
+        unfold StepOK. destruct c; try done. }
+      destruct c; try (by apply Hdef).
+      + by apply step_ping.
+      + by apply step_flush.
+      + by apply step_keys.
+      + by apply step_mget.
+      + by apply step_mset.
+      + by apply step_dbsize.
+      + by apply step_scan.
+      + by apply step_del.
+      + by apply step_exists.
+    - by apply step_fastget.
+    - by apply step_fastset.
+    - by apply step_pipeget.
+    - by apply step_pipeset.
+  Qed.
+
+  (* ---------------------------------------------------------------- N shards against one shard *)
+  Lemma home_one k : home_s 1 k = O.
+  Proof. pose proof (home_lt 1 k). lia. Qed.
+  Lemma Homed_single (S : st) : Homed [S].
+  Proof. intros i s k Hi _. cbn. rewrite home_one. destruct i; [done|]. by destruct i. Qed.
+  Lemma abs_single (S : st) : abs [S] = S.
+  Proof. unfold abs. cbn. apply (right_id ∅ (∪)). Qed.
+  Lemma SingleHome_one n (rq : req P) : SingleHome X home_s n rq -> SingleHome X home_s 1 rq.
+  Proof.
+    destruct rq; try done. intros [H1 [H2 H3]]. split; [done|]. split; [|done].
+    intros [k1 [k2 [_ [_ Hne]]]]. apply Hne. by rewrite !home_one.
+  Qed.
+  Lemma reply_equiv_join (rq : req P) a b c : reply_equiv rq a c -> reply_equiv rq b c -> reply_equiv rq a b.
+  Proof.
+    destruct rq as [[]| | | |]; cbn; try (intros -> ->; done).
+    intros [la [lc [-> [-> Hp]]]] [lb [lc' [-> [Heq Hp']]]]. inversion Heq; subst.
+    exists la, lb. split; [done|]. split; [done|]. by rewrite Hp, Hp'.
+  Qed.
+
+  Theorem refine_step sh (rq : req P) :
+    Homed sh -> (0 < List.length sh)%nat -> SingleHome X home_s (List.length sh) rq ->
+    let rN := execN X home_s home_b sh rq in
+    let r1 := execN X home_s home_b [abs sh] rq in
+    reply_equiv rq rN.2 r1.2 /\ r1.1 = [abs rN.1] /\ Homed rN.1 /\ List.length rN.1 = List.length sh.
+  Proof.
+    intros HH Hn HS rN r1.
+    destruct (refines_ref1 sh rq HH Hn HS) as [A1 [A2 [A3 A4]]].
+    destruct (refines_ref1 [abs sh] rq (Homed_single _) ltac:(cbn; lia) (SingleHome_one _ _ HS)) as [B1 [B2 [B3 B4]]].
+    rewrite abs_single in B1, B2. fold rN in A1, A2, A3, A4. fold r1 in B1, B2, B3, B4.
+    split; [by eapply reply_equiv_join|]. split; [|done].
+    destruct r1.1 as [|x [|y l]] eqn:E; cbn in B4; try lia.
+    rewrite abs_single in B2. congruence.
+  Qed.
+
+  Theorem refine_run (rqs : list (req P)) : forall sh,
+    Homed sh -> (0 < List.length sh)%nat -> Forall (SingleHome X home_s (List.length sh)) rqs ->
+    let rN := runN X home_s home_b sh rqs in
+    let r1 := runN X home_s home_b [abs sh] rqs in
+    replies_equiv rqs rN.2 r1.2 /\ r1.1 = [abs rN.1] /\ Homed rN.1 /\ List.length rN.1 = List.length sh.
+  Proof.
+    induction rqs as [|rq rqs IH]; intros sh HH Hn HS; cbn [runN].
+    - cbn. done.
+    - apply Forall_cons in HS as [HS1 HS2].
+      destruct (refine_step sh rq HH Hn HS1) as [A1 [A2 [A3 A4]]].
+      destruct (execN X home_s home_b sh rq) as [shN a] eqn:EN.
+      destruct (execN X home_s home_b [abs sh] rq) as [sh1 a1] eqn:E1. cbn [fst snd] in *. subst sh1.
+      rewrite <- A4 in HS2. specialize (IH shN A3 ltac:(lia) HS2).
+      destruct (runN X home_s home_b shN rqs) as [shN' l] eqn:EN'.
+      destruct (runN X home_s home_b [abs shN] rqs) as [sh1' l1] eqn:E1'. cbn [fst snd] in *.
+      destruct IH as [I1 [I2 [I3 I4]]]. repeat split; try done. lia.
+  Qed.
+End Refine.
+
+(* ================================================================ the concrete routing *)
+Definition StepOK_str {V P} (X : executor V P) := @StepOK V P X home_str.
+
+Lemma home_str_lt' : forall n k, (0 < n)%nat -> (home_str n k < n)%nat.
+Proof. intros; by apply home_str_lt. Qed.
+Lemma home_bytes_str : forall n k, home_bytes n k = home_str n k.
+Proof. reflexivity. Qed.
+
+Theorem shards_refine_one_lemma {V P} (X : executor V P) : exec_ok X ->
+  forall (sh : list (gmap (list N) V)) (rq : req P),
+  Homed home_str sh -> (0 < List.length sh)%nat -> SingleHome X home_str (List.length sh) rq ->
+  let rN := execN X home_str home_bytes sh rq in
+  let r1 := execN X home_str home_bytes [abs sh] rq in
+  reply_equiv rq rN.2 r1.2 /\ r1.1 = [abs rN.1] /\ Homed home_str rN.1 /\ List.length rN.1 = List.length sh.
+Proof. intros HX sh rq. apply (refine_step X home_str home_bytes HX home_str_lt' home_bytes_str). Qed.
+
+Theorem shards_refine_one_seq_lemma {V P} (X : executor V P) : exec_ok X ->
+  forall (rqs : list (req P)) (sh : list (gmap (list N) V)),
+  Homed home_str sh -> (0 < List.length sh)%nat -> Forall (SingleHome X home_str (List.length sh)) rqs ->
+  let rN := runN X home_str home_bytes sh rqs in
+  let r1 := runN X home_str home_bytes [abs sh] rqs in
+  replies_equiv rqs rN.2 r1.2 /\ r1.1 = [abs rN.1] /\ Homed home_str rN.1 /\ List.length rN.1 = List.length sh.
+Proof. intros HX rqs sh. apply (refine_run X home_str home_bytes HX home_str_lt' home_bytes_str). Qed.
+
+Theorem shards_refine_reference_lemma {V P} (X : executor V P) : exec_ok X ->
+  forall (sh : list (gmap (list N) V)) (rq : req P),
+  Homed home_str sh -> (0 < List.length sh)%nat -> SingleHome X home_str (List.length sh) rq ->
+  let rN := execN X home_str home_bytes sh rq in
+  reply_equiv rq rN.2 (ref1 X (abs sh) rq).2 /\ abs rN.1 = (ref1 X (abs sh) rq).1 /\
+  Homed home_str rN.1 /\ List.length rN.1 = List.length sh.
+Proof. intros HX sh rq. apply (refines_ref1 X home_str home_bytes HX home_str_lt' home_bytes_str). Qed.
+
+(* a server always starts Homed: all shards empty *)
+Lemma Homed_empty {V} n : Homed home_str (replicate n (∅ : gmap (list N) V)).
+Proof.
+  intros i s k Hs Hk. apply lookup_replicate in Hs as [-> _]. rewrite lookup_empty in Hk. by destruct Hk.
+Qed.
+
+(* the known-finding class is the complement of SingleHome *)
+Lemma KnownClass_not_SingleHome {V P} (X : executor V P) home n (rq : req P) :
+  KnownClass X home n rq -> ~ SingleHome X home n rq.
+Proof.
+  destruct rq; try done. intros [Hc|[Hd Hr]] [_ [H1 H2]]; [by apply H1|]. by apply Hr, H2.
+Qed.
+
+(* ================================================================ the key table *)
+Lemma key_table_sound_lemma :
+  (forall t, In t kt_variants -> exists p spec, table_row t = Some (p, spec)) /\
+  (forall t p spec, table_row t = Some (p, spec) ->
+     tag_single_home t = at_most_one_key spec || in_tags t dispatch_arms) /\
+  (forall t p spec, table_row t = Some (p, spec) -> in_tags t dispatch_arms = false ->
+     head_consistent p spec = true /\ (p = PNone -> spec = [])) /\
+  dispatch_arms = model_arms /\ dispatch_guards = [("Del", "keys.len() > 1")]%string /\
+  (forall P (home : nat -> list N -> nat) n tag ks (p : P),
+     tag_single_home tag = true -> WfCmd (COp tag ks p) -> ~ CrossShard home n (COp tag ks p)).
+Proof.
+  assert (forall t p spec, table_row t = Some (p, spec) ->
+     tag_single_home t = at_most_one_key spec || in_tags t dispatch_arms) as H2.
+  { intros t p spec Hrow. pose proof (table_row_ok t p spec Hrow) as Hok. unfold row_ok in Hok.
+    apply andb_prop in Hok as [Hok _]. apply andb_prop in Hok as [Hok _]. by apply Bool.eqb_prop in Hok. }
+  split; [|split; [exact H2|split; [|split; [reflexivity|split; [reflexivity|]]]]].
+  - assert (forallb (fun t => match table_row t with Some _ => true | None => false end) kt_variants = true) as H
+      by (vm_compute; reflexivity).
+    rewrite forallb_forall in H. intros t Ht. specialize (H t Ht).
+    destruct (table_row t) as [[p spec]|]; [eauto|done].
+  - intros t p spec Hrow Harm. pose proof (table_row_ok t p spec Hrow) as Hok. unfold row_ok in Hok.
+    rewrite Harm in Hok. rewrite !orb_false_l in Hok.
+    apply andb_prop in Hok as [Hok H3]. apply andb_prop in Hok as [_ Hh]. split; [done|].
+    intros ->. cbn in H3. by destruct spec.
+  - intros P home n tag ks p Hsh [Harm [p0 [spec [Hrow Hconf]]]] [k1 [k2 [Hk1 [Hk2 Hne]]]].
+    rewrite (H2 tag p0 spec Hrow), Harm, orb_false_r in Hsh. cbn in Hk1, Hk2.
+    assert (List.length ks <= 1)%nat as Hlen.
+    { destruct spec as [|[] [|]]; try done; cbn in Hconf; apply Nat.eqb_eq in Hconf; lia. }
+    destruct ks as [|a [|b ks]]; cbn in Hlen; try lia.
+    + by apply elem_of_nil in Hk1.
+    + apply elem_of_list_singleton in Hk1, Hk2. congruence.
+Qed.
+
+(* ================================================================ MiniKV satisfies exec_ok *)
+Lemma apply_writes_agree (s1 s2 : gmap (list N) val) kws k :
+  s1 !! k = s2 !! k -> apply_writes s1 kws !! k = apply_writes s2 kws !! k.
+Proof.
+  revert s1 s2; induction kws as [|[a w] kws IH]; intros s1 s2 H; [done|].
+  cbn [apply_writes foldl]. apply IH. cbn [fst snd]. destruct w as [[v|]|]; [| |done].
+  - destruct (decide (a = k)) as [->|]; [by rewrite !lookup_insert|by rewrite !lookup_insert_ne].
+  - destruct (decide (a = k)) as [->|]; [by rewrite !lookup_delete|by rewrite !lookup_delete_ne].
+Qed.
+Lemma apply_writes_other (s : gmap (list N) val) kws k :
+  (forall kw, kw ∈ kws -> kw.1 <> k) -> apply_writes s kws !! k = s !! k.
+Proof.
+  revert s; induction kws as [|[a w] kws IH]; intros s H; [done|].
+  cbn [apply_writes foldl]. unfold apply_writes in IH. rewrite IH.
+  - cbn [fst snd]. assert (a <> k) by (apply (H (a, w)); apply elem_of_list_here).
+    destruct w as [[v|]|]; [by rewrite lookup_insert_ne|by rewrite lookup_delete_ne|done].
+  - intros kw Hin. apply H. by apply elem_of_list_further.
+Qed.
+
+Lemma mini_ok : exec_ok mini.
+Proof.
+  split.
+  - (* key_local *)
+    intros c Hr s1 s2 Hag. destruct c; try done; cbn [exec mini mini_exec cmd_keys] in *.
+    + split; [|intros; by apply Hag]. cbn. do 2 f_equal.
+      apply Forall_fmap_ext_1, Forall_forall. intros k Hk. by rewrite (Hag k Hk).
+    + split; [done|]. intros k Hk. cbn [fst].
+      pose proof (fold_set_lookup (fun (_ : option val) v => VStr v)) as HF. unfold fold_set in HF.
+      rewrite !HF. by rewrite (Hag k Hk).
+    + cbn in Hr. rewrite Hr.
+      assert (((fun k => s1 !! k) <$> ks) = ((fun k => s2 !! k) <$> ks)) as ->.
+      { apply Forall_fmap_ext_1, Forall_forall. intros k Hk. by apply Hag. }
+      destruct (mini_op tag ks p _) as [ws r]. cbn [fst snd]. split; [done|].
+      intros k Hk. apply apply_writes_agree. by apply Hag.
+  - (* key_frame *)
+    intros c Hr s k Hk. destruct c; try done; cbn [exec mini mini_exec cmd_keys] in *.
+    + cbn [fst]. pose proof (fold_set_lookup (fun (_ : option val) v => VStr v)) as HF. unfold fold_set in HF.
+      rewrite HF.
+      assert (filter (fun kv : list N * list N => kv.1 = k) kvs = []) as ->; [|done].
+      apply elem_of_nil_inv. intros kv Hin. apply elem_of_list_filter in Hin as [<- Hin].
+      apply Hk. apply elem_of_list_fmap. eauto.
+    + cbn in Hr. rewrite Hr. destruct (mini_op tag ks p _) as [ws r]. cbn [fst].
+      apply apply_writes_other. intros [a w] Hin Heq. cbn in Heq. subst a.
+      apply elem_of_zip_l in Hin. done.
+  - done.
+  - done.
+  - intros s p. eexists. split; [reflexivity|done].
+  - done.
+  - done.
+  - done.
+  - done.
+  - done.
+  - done.
+Qed.
+
+(* ================================================================ the refuted class *)
+Definition k0 : list N := [107; 48].   (* "k0": shard 0 of 2 *)
+Definition k1 : list N := [107; 49].   (* "k1": shard 1 of 2 *)
+Definition d0 : list N := [100; 48].   (* "d0": shard 0 of 2 *)
+Definition d1 : list N := [100; 49].   (* "d1": shard 1 of 2 *)
+Definition va : list N := [97].
+Definition vb : list N := [98].
+
+(* a class command, run after [init] on 2 shards and on 1 shard, then a probe *)
+Definition refuted_by (init : list (req arg)) (c : cmd arg) (probe : req arg) : Prop :=
+  let shN := (runN mini home_str home_bytes (replicate 2 ∅) init).1 in
+  let sh1 := (runN mini home_str home_bytes [∅] init).1 in
+  Forall (SingleHome mini home_str 2) init /\
+  KnownClass mini home_str 2 (Generic c) /\ SingleHome mini home_str 2 probe /\
+  (runN mini home_str home_bytes shN [Generic c; probe]).2 <> (runN mini home_str home_bytes sh1 [Generic c; probe]).2.
+
+Local Open Scope string_scope.
+Ltac single_home_op :=
+  split; [split; [by vm_compute|eexists _, _; split; [by vm_compute|by vm_compute]]|
+          split; [intros [x [y [Hx [Hy Hne]]]]; cbn in Hx, Hy;
+                  repeat (apply elem_of_cons in Hx as [->|Hx]); repeat (apply elem_of_cons in Hy as [->|Hy]);
+                  try (by apply elem_of_nil in Hx); try (by apply elem_of_nil in Hy); try done
+                 |intros _; by vm_compute]].
+Ltac cross_op a b :=
+  left; exists a, b; split; [cbn; set_solver|split; [cbn; set_solver|vm_compute; lia]].
+Ltac differs := let H := fresh in intros H; vm_compute in H; discriminate H.
+
+Lemma two_key_witnesses :
+  refuted_by [Generic (COp "LPush" [d1] (ArgL [va]))] (COp "RPopLPush" [d1; d0] ArgNone) (Generic (COp "LLen" [d0] ArgNone)) /\
+  refuted_by [Generic (COp "LPush" [d1] (ArgL [va]))] (COp "LMove" [d1; d0] (ArgDir false true)) (Generic (COp "LLen" [d0] ArgNone)) /\
+  refuted_by [Generic (COp "Set" [k1] (ArgB va))] (COp "Rename" [k1; k0] ArgNone) (Generic (COp "Get" [k0] ArgNone)) /\
+  refuted_by [Generic (COp "Set" [k1] (ArgB va))] (COp "RenameNx" [k1; k0] ArgNone) (Generic (COp "Get" [k0] ArgNone)) /\
+  refuted_by [Generic (COp "Set" [k0] (ArgB va))] (COp "MSetNx" [k1; k0] (ArgL [va; vb])) (FastGet false k0) /\
+  refuted_by [Generic (COp "RPush" [d1] (ArgL [vb; va]))] (COp "Sort" [d1; d0] ArgNone) (Generic (COp "LLen" [d0] ArgNone)).
+Proof.
+  repeat split; try (apply Forall_cons; split; [|apply Forall_nil]); try single_home_op;
+    try (cross_op d1 d0); try (cross_op k1 k0); try differs.
+Qed.
+
+Lemma keyless_witness :
+  refuted_by [Generic (COp "Set" [k1] (ArgB va))] (COp "RandomKey" [] ArgNone) (Generic (CPing None)).
+Proof.
+  repeat split; try (apply Forall_cons; split; [|apply Forall_nil]); try single_home_op; try differs.
+  - right. split; [done|]. by vm_compute.
+  - intros [x [y [Hx _]]]. by apply elem_of_nil in Hx.
+Qed.
+
+(* ================================================================ a concrete run (non-vacuity) *)
+Definition ex_run : list (req arg) :=
+  [ FastSet false d0 va;
+    Generic (COp "Get" [d0] ArgNone);
+    Generic (CMSet [(d1, vb); (k0, va); (k1, vb)]);
+    Generic (CMGet [d0; d1; k0; k1; d0]);
+    PipeSet [(d1, va); (k1, va)];
+    PipeGet [k1; d1; d0];
+    FastSet true k0 vb;
+    FastGet true k0;
+    Generic (COp "Append" [k0] (ArgB va));
+    Generic (COp "RPush" [[100; 50]] (ArgL [va; vb]));
+    Generic (COp "LPop" [[100; 50]] ArgNone);
+    Generic (CExists [d0; d1; [120]; d0]);
+    Generic CDbSize;
+    Generic (CKeys [100; 49]);
+    Generic (CScan 0 None (Some 2%N));
+    Generic (CScan 2 None (Some 2%N));
+    Generic (CDel [d0; k1; [120]]);
+    Generic (CDel [d1]);
+    Generic CDbSize;
+    Generic (CFlush false);
+    Generic CDbSize ].
+Definition ex_replies : list reply :=
+  Eval vm_compute in (runN mini home_str home_bytes [∅] ex_run).2.
+
+Ltac single_home_arm :=
+  split; [done|split; [intros [x [y [Hx _]]]; by apply elem_of_nil in Hx|by intros []]].
+Lemma ex_run_ok :
+  Forall (SingleHome mini home_str 3) ex_run /\
+  home_str 3 d0 <> home_str 3 d1 /\
+  (runN mini home_str home_bytes (replicate 3 ∅) ex_run).2 = (runN mini home_str home_bytes [∅] ex_run).2 /\
+  (runN mini home_str home_bytes (replicate 3 ∅) ex_run).2 = ex_replies.
+Proof.
+  split; [|split; [by vm_compute|split; by vm_compute]].
+  unfold ex_run. repeat (apply Forall_cons; split); try apply Forall_nil; try done;
+    try single_home_arm; try single_home_op.
+Qed.
